@@ -192,6 +192,10 @@ pub fn gen(ctx: &Ctx, fam: &str, k: u64, r: &mut Rng) -> Program {
             if r.chance(1, 4) {
                 cfg.max_rank = 4;
                 cfg.max_dim = 2;
+            } else if r.chance(1, 6) {
+                // larger arrays (up to 64 elements)
+                cfg.max_rank = 2;
+                cfg.max_dim = 8;
             }
             gen_program(r, &cfg)
         }
